@@ -193,6 +193,14 @@ def run_opt(case):
                               {"valid_candidates": nvalid})
             acc.sigs.add(sig)
             return acc.result()
+        if fault.get("max_iter") and fault["max_iter"] >= 1 and not checks and not incumbents:
+            # an iteration budget of at least one iteration, and the loop never asked z3 anything
+            ref, nvalid = reference_optimum(spec)
+            if nvalid:
+                acc.violation("C07.no_iteration_run_within_budget", "lost", {"max_iter": fault["max_iter"]},
+                              {"valid_candidates": nvalid})
+                acc.sigs.add(sig)
+                return acc.result()
         if fault:
             # an interrupted run that returns nothing although an incumbent existed (announced, or at least found:
             # a check() of the loop answered sat before the stop)
